@@ -6,7 +6,8 @@ from mc.runner import Stats
 ID = "C03"
 LEVEL = "model_checking"
 TECHNIQUE = "explicit-state BFS over operation histories on real Deferreds + lock-step reference state machine"
-RULE = ("BFS over histories of {callback(fresh), errback(fresh), cancel, add a callback returning a fresh unfired "
+RULE = ("BFS over histories of {callback(fresh value), errback(exception instance), errback(Failure), bare errback() "
+        "inside an except block -- each both as the firing call and as a late/extra call --, cancel, add a callback returning a fresh unfired "
         "inner Deferred, add a plain observing callback} applied to the outer Deferred and to every inner Deferred "
         "created so far (<=3 Deferreds quick / 4 thorough, so 'fire/cancel the inner' and two-level waiting are included), for every "
         "(outer canceller, inner canceller) in {none, fires callback, fires errback, does nothing, raises}^2.  "
@@ -29,7 +30,7 @@ ASSUMPTIONS = [
     "_suppressAlreadyCalled, canceller present) of the real object plus the reference state; tokens are fresh "
     "and verified equal in that state, so they are dropped",
 ]
-MIN = {"quick": {"states": 12000, "nontrivial": 10000, "outcomes": 13, "transitions": 110000},
+MIN = {"quick": {"states": 12000, "nontrivial": 11000, "outcomes": 18, "transitions": 175000},
        "thorough": {"states": 250000, "nontrivial": 240000, "outcomes": 13, "transitions": 3000000}}
 LEVEL_TEXT = ("every history within the bound is executed on real Deferreds and compared after each call with a "
               "reference state machine of the documented one-result / cancellation rules")
@@ -222,6 +223,25 @@ def mkinner(st, i, cid, j):
     return ret
 
 
+FIRE_OPS = ("cb", "eb", "ebf", "ebn")
+
+
+def _fire_real(d, op, tok):
+    """the four call shapes: callback(value), errback(exception), errback(Failure), bare errback() in an except"""
+    from twisted.python.failure import Failure
+    if op == "cb":
+        d.callback(tok)
+    elif op == "eb":
+        d.errback(TokErr(tok))
+    elif op == "ebf":
+        d.errback(Failure(TokErr(tok)))
+    else:
+        try:
+            raise TokErr(tok)
+        except TokErr:
+            d.errback()
+
+
 def apply(st, ev):
     from twisted.internet.defer import AlreadyCalledError
     op, i = ev[0], ev[1]
@@ -234,11 +254,12 @@ def apply(st, ev):
     expect = None
     before = None
     was_fired = M.fired
-    if op in ("cb", "eb"):
+    if op in FIRE_OPS:
         tok = ("t", st.ntok)
         st.ntok += 1
+        st.flags.add(("late-" if M.fired else "first-") + op)
         expect = m_fire(st, i, ("ok" if op == "cb" else "fail", tok))
-        call = (lambda: d.callback(tok)) if op == "cb" else (lambda: d.errback(TokErr(tok)))
+        call = lambda: _fire_real(d, op, tok)
     elif op == "cancel":
         target = i
         while st.m[target].fired and st.m[target].wait is not None:
@@ -332,12 +353,12 @@ def apply_open(st, op, i):
     d = st.d[i]
     kind = st.m[i].kind
     got = None
-    if op in ("cb", "eb"):
+    if op in FIRE_OPS:
         was_called = bool(getattr(d, "called", False))
         tok = ("t", st.ntok)
         st.ntok += 1
         try:
-            d.callback(tok) if op == "cb" else d.errback(TokErr(tok))
+            _fire_real(d, op, tok)
         except AlreadyCalledError:
             got = "AlreadyCalledError"
         except Exception as e:      # anything else after a raising canceller is not judged
@@ -371,12 +392,11 @@ def enabled(st):
     if st.open:
         evs = []
         for i in range(len(st.d)):
-            evs += [("cb", i), ("eb", i), ("cancel", i)]
+            evs += [(f, i) for f in FIRE_OPS] + [("cancel", i)]
         return evs
     evs = []
     for i in range(len(st.d)):
-        evs.append(("cb", i))
-        evs.append(("eb", i))
+        evs.extend((f, i) for f in FIRE_OPS)
         evs.append(("cancel", i))
         np_ = sum(1 for e in st.m[i].pending if e[0] != "cont")
         runs_now = st.m[i].fired and st.m[i].wait is None
